@@ -140,7 +140,9 @@ var c18Templates = map[string]string{
 	// ... and two imported blocks under one name, and several that are not there
 	"usedup.html":  "{% use 'f.html.twig' with one as z, two as z %}{{ block('z') }}",
 	"usemiss.html": "{% use 'f.html.twig' with nob1 as p, one as q, nob2 as r, nob3 as s %}{{ block('q') }}",
-	"tests.txt":    "{{ 4 is pos }}{{ 0 is not pos }}{% for i in items if i %}{{ loop.index }}{{ i }}{% else %}none{% endfor %}",
+	// hash and list literals are values of the call that evaluates them: a callback may fill the one it is given
+	"fill.txt":  "{% set h = fill({}, 'k-' ~ x, 1) %}{{ h|length }}{% for k, v in fill({}, x, 2) %}[{{ k }}]{% endfor %}{% for i in 1..3 %}{{ fill({}, i, i)|length }}{% endfor %}{{ {}|length }}{{ []|length }}",
+	"tests.txt": "{{ 4 is pos }}{{ 0 is not pos }}{% for i in items if i %}{{ loop.index }}{{ i }}{% else %}none{% endfor %}",
 }
 
 // c18Shared / c18SharedMap are read-only values that every context refers to (the same Go slice, with spare
@@ -295,6 +297,16 @@ func c18NewEnvs() (*stick.Env, *stick.Env) {
 			return ""
 		}
 		e.Tests["pos"] = func(ctx stick.Context, v stick.Value, args ...stick.Value) bool { return stick.CoerceNumber(v) > 0 }
+		// fill(h, k, v) puts an entry into the hash it is handed and gives it back: the hash is the caller's own
+		e.Functions["fill"] = func(ctx stick.Context, args ...stick.Value) stick.Value {
+			if len(args) == 3 {
+				if h, ok := args[0].(map[string]stick.Value); ok {
+					h[stick.CoerceString(args[1])] = args[2]
+					return h
+				}
+			}
+			return nil
+		}
 	}
 	for n, f := range tw.Filters {
 		if _, ok := co.Filters[n]; !ok && n != "escape" {
@@ -601,6 +613,28 @@ func (p *c18) Run(i int) (res fw.Result) {
 			}
 		}(g)
 	}
+	// while the callers run, somebody else builds and configures an environment of their own - with filters of their
+	// own under names the built-in ones have - and uses it: another environment is another environment
+	wg.Add(1)
+	go func() {
+		defer wg.Done()
+		<-start
+		for k := 0; k < 3; k++ {
+			tw2, co2 := c18NewEnvs()
+			for _, e := range []*stick.Env{tw2, co2} {
+				e.Filters["upper"] = func(ctx stick.Context, v stick.Value, args ...stick.Value) stick.Value {
+					return "SOMEBODY-ELSE'S-UPPER"
+				}
+				e.Filters["join"] = func(ctx stick.Context, v stick.Value, args ...stick.Value) stick.Value { return "SOMEBODY-ELSE'S-JOIN" }
+				e.Filters["c18own"] = func(ctx stick.Context, v stick.Value, args ...stick.Value) stick.Value { return v }
+				e.Functions["c18fn"] = func(ctx stick.Context, args ...stick.Value) stick.Value { return "" }
+				e.Tests["c18test"] = func(ctx stick.Context, v stick.Value, args ...stick.Value) bool { return true }
+			}
+			c18do(tw2, 0, "e", c18copyCtx(c18ctxAt(0)))
+			c18do(co2, 0, "d.txt", c18copyCtx(c18ctxAt(1)))
+			runtime.Gosched()
+		}
+	}()
 	close(start)
 	wg.Wait()
 	for g := range held {
